@@ -18,10 +18,14 @@ ObsReason(o, t) ==
   IF o.res # "ok" THEN "accessor_panic"
   ELSE IF ~o.x /\ o.ids # <<>> THEN "ids_reported_without_extension"
   ELSE IF ~UniqueIds(t.exts) THEN "duplicate_ids"
-  ELSE IF \E i \in 1..Len(o.probes) : o.probes[i].val # Lookup(t.exts, o.probes[i].id) THEN "get_disagrees_with_ids"
+  ELSE IF \E i \in 1..Len(o.probes) : o.probes[i].val # Lookup(t.exts, o.probes[i].id) THEN "get_disagrees_with_ids"      \* probes: ids not listed by GetExtensionIDs
   ELSE ""
 
-ProbeVal(probes, id) == LET k == CHOOSE i \in 1..Len(probes) : probes[i].id = id IN probes[k].val
+\* what the receiver reads under id: its listed value, else the probe of that unlisted id, else nothing
+WireExts(w) == [i \in 1..Len(w.ids) |-> [id |-> w.ids[i], val |-> w.vals[i]]]
+ProbeVal(w, id) == IF Has(WireExts(w), id) THEN Lookup(WireExts(w), id)
+                   ELSE IF \E i \in 1..Len(w.probes) : w.probes[i].id = id THEN w.probes[CHOOSE i \in 1..Len(w.probes) : w.probes[i].id = id].val
+                   ELSE <<>>
 WireReason(w, t, freshIds) ==
   LET pc == ProfileClass(t) IN
   IF w.res = "panic" THEN "wire_panic_" \o pc \o (IF t.exts = <<>> THEN "_empty" ELSE "")
@@ -31,7 +35,7 @@ WireReason(w, t, freshIds) ==
           THEN "wire_unreadable_unrepresentable_accepted_on_fresh_header"
           ELSE "wire_unmarshal_rejects_" \o pc)
   ELSE
-    LET lost == { i \in 1..Len(t.exts) : ProbeVal(w.probes, t.exts[i].id) # t.exts[i].val } IN
+    LET lost == { i \in 1..Len(t.exts) : ProbeVal(w, t.exts[i].id) # t.exts[i].val } IN
     IF lost = {} THEN ""
     ELSE IF \E i \in lost : ~Representable(t, t.exts[i].id, Len(t.exts[i].val)) /\ t.exts[i].id \in freshIds
          THEN "wire_lost_unrepresentable_accepted_on_fresh_header"
